@@ -2,7 +2,8 @@
     Property theorems only; each is closed by [exact] of a lemma of [Proofs/]. *)
 From Coq Require Import List ZArith Bool.
 From EDS Require Import Model.Objects Model.PodSpec Model.Default Model.Canary Model.ErsReconcile Model.EdsLogic Model.EdsReconcile
-     Model.PodTemplate Proofs.Lists Proofs.EdsInv Proofs.EdsWrites Proofs.C04Proofs Proofs.C13Proofs.
+     Model.PodTemplate Proofs.Lists Proofs.EdsInv Proofs.EdsWrites Proofs.C04Proofs Proofs.C13Proofs Proofs.C13History.
+From Coq Require Import Relations.
 Import ListNotations.
 Open Scope Z_scope.
 
@@ -67,3 +68,32 @@ Theorem C13_podtemplate_silent_iff : forall e pt fail ws err,
   (ws = [] <-> pt_hash_annot pt = Some (e_tmpl_hash e)).
 Proof. exact podtemplate_silent_iff. Qed.
 Print Assumptions C13_podtemplate_silent_iff.
+
+(** Over every history - ExtendedDaemonSet reconciles whose writes take effect or are rejected one by one,
+    user edits of anything but name and namespace (template changes in a row, reverts, strategy and annotation
+    changes), status and other non-identity updates of the replica sets, deletions by anybody, replica sets of
+    other owners appearing - no two replica sets of the ExtendedDaemonSet carry the same template hash.
+    The step relation [hstep] and the API server's part ([applied], [born_from]) are in [Proofs/C13History.v]. *)
+Theorem C13_history_one_per_template : forall s s', clos_refl_trans _ hstep s s' ->
+  one_per_template (fst s) (snd s) -> one_per_template (fst s') (snd s').
+Proof. exact history_one_per_template. Qed.
+Print Assumptions C13_history_one_per_template.
+
+(** the invariant read out: two of its replica sets at different places of the store have different hashes *)
+Theorem C13_history_distinct : forall e l1 r1 l2 r2 l3 h,
+  one_per_template e (l1 ++ r1 :: l2 ++ r2 :: l3) ->
+  own e r1 = true -> own e r2 = true -> r_hash_annot r1 = Some h -> r_hash_annot r2 = Some h -> False.
+Proof. exact one_per_template_distinct. Qed.
+Print Assumptions C13_history_distinct.
+
+(** re-applying or reverting to a template reuses its replica set: when the store holds a replica set of the
+    ExtendedDaemonSet with the hash of spec.template, the reconcile creates none *)
+Theorem C13_reuse : forall sn e pl r h,
+  es_obj sn = Some e -> eds_sync sn = Ok pl -> In r (es_rss sn) -> own e r = true ->
+  r_hash_annot r = Some h -> h = e_tmpl_hash e -> creates_of (ep_writes pl) = [].
+Proof. exact reuse. Qed.
+Print Assumptions C13_reuse.
+
+(** the empty store satisfies the invariant, so every store reached from it does *)
+Example C13_history_starts : forall e, one_per_template e [].
+Proof. intros e. constructor. Qed.
